@@ -162,6 +162,8 @@ pub struct Stats {
     pub has_strn: bool,
     pub has_zero_sized: bool,
     pub enum_in_array_or_vec: bool,
+    /// one generic declaration instantiated with two different arguments
+    pub generic_two_instances: bool,
 }
 
 pub fn stats(decls: &Decls, t: &Ty) -> Stats {
@@ -214,7 +216,30 @@ pub fn stats(decls: &Decls, t: &Ty) -> Stats {
     }
     let mut s = Stats::default();
     go(decls, t, 0, false, &mut s);
+    let mut uses: Vec<(usize, Vec<Ty>)> = vec![];
+    collect_generic_uses(decls, t, &mut uses);
+    s.generic_two_instances = uses.iter().any(|(i, a)| uses.iter().any(|(j, b)| i == j && a != b));
     s
+}
+
+fn collect_generic_uses(decls: &Decls, t: &Ty, out: &mut Vec<(usize, Vec<Ty>)>) {
+    match t {
+        Ty::Array(e, _) | Ty::Vec(e) | Ty::Option(e) => collect_generic_uses(decls, e, out),
+        Ty::Result(a, b) => {
+            collect_generic_uses(decls, a, out);
+            collect_generic_uses(decls, b, out)
+        }
+        Ty::Tuple(ts) => ts.iter().for_each(|x| collect_generic_uses(decls, x, out)),
+        Ty::Struct(i, a) | Ty::Enum(i, a) => {
+            if !a.is_empty() && !out.contains(&(*i, a.clone())) {
+                out.push((*i, a.clone()));
+            }
+            for (_, x) in members(decls, *i, a) {
+                collect_generic_uses(decls, &x, out)
+            }
+        }
+        _ => {}
+    }
 }
 
 // ---------------------------------------------------------------------------------------------
@@ -691,6 +716,58 @@ pub fn projections(decls: &Decls, t: &Ty, max: usize) -> Vec<(String, Ty)> {
     }
     let mut out = vec![];
     go(decls, t, String::new(), &mut out, max);
+    out
+}
+
+/// For every entry of `projections` (same order): is the projected type an instance of a generic declaration's field type
+/// that contains a tuple or array over the type parameter? (The JSON ABI of such an inferred type leaves `generic T`
+/// unbound: recorded finding, see known_findings.d/vp-abi.json.)
+pub fn projection_known_shape(decls: &Decls, t: &Ty, max: usize) -> Vec<bool> {
+    fn tuple_or_array_over_param(d: &Ty) -> bool {
+        match d {
+            Ty::Tuple(_) | Ty::Array(..) => contains_param(d),
+            Ty::Option(t) | Ty::Vec(t) => tuple_or_array_over_param(t),
+            Ty::Result(a, b) => tuple_or_array_over_param(a) || tuple_or_array_over_param(b),
+            Ty::Struct(_, a) | Ty::Enum(_, a) => a.iter().any(tuple_or_array_over_param),
+            _ => false,
+        }
+    }
+    // `declared`: the node of the enclosing generic declaration's field type that corresponds to `t` (None outside of one)
+    fn go(decls: &Decls, t: &Ty, declared: Option<&Ty>, inside_tuple_or_array_of_generic_field: bool, out: &mut Vec<bool>, max: usize) {
+        if out.len() >= max {
+            return;
+        }
+        match t {
+            Ty::Tuple(ts) => {
+                for (i, x) in ts.iter().enumerate() {
+                    let d = match declared {
+                        Some(Ty::Tuple(ds)) => ds.get(i),
+                        _ => None,
+                    };
+                    go(decls, x, d, inside_tuple_or_array_of_generic_field, out, max)
+                }
+            }
+            Ty::Array(e, n) => {
+                for _ in 0..*n {
+                    let d = match declared {
+                        Some(Ty::Array(de, _)) => Some(&**de),
+                        _ => None,
+                    };
+                    go(decls, e, d, inside_tuple_or_array_of_generic_field, out, max)
+                }
+            }
+            Ty::Struct(i, a) => {
+                let generic = !a.is_empty();
+                for (j, (_, x)) in members(decls, *i, a).iter().enumerate() {
+                    let d = if generic { Some(&decls[*i].members[j].1) } else { None };
+                    go(decls, x, d, false, out, max)
+                }
+            }
+            _ => out.push(declared.map(tuple_or_array_over_param).unwrap_or(false)),
+        }
+    }
+    let mut out = vec![];
+    go(decls, t, None, false, &mut out, max);
     out
 }
 
